@@ -6,6 +6,7 @@ import (
 	"fmt"
 	"image/color"
 	"io"
+	"math"
 	"strconv"
 	"strings"
 
@@ -19,6 +20,12 @@ func parseFloatLine(components []string) (f float64, err error) {
 	return f, nil
 }
 
+// colorChannel turns a channel given as a real number in [0, 1] into the
+// nearest of the 256 levels a color.RGBA can hold.
+func colorChannel(f float64) uint8 {
+	return uint8(math.Round(f * 255))
+}
+
 func parseColorLine(components []string) (color.Color, error) {
 	r, err := strconv.ParseFloat(strings.TrimSpace(components[1]), 32)
 	g, err := strconv.ParseFloat(strings.TrimSpace(components[2]), 32)
@@ -26,7 +33,7 @@ func parseColorLine(components []string) (color.Color, error) {
 	if err != nil {
 		return nil, fmt.Errorf("unable to parse component %q: %w", components[0], err)
 	}
-	return color.RGBA{uint8(r * 255), uint8(g * 255), uint8(b * 255), 255}, nil
+	return color.RGBA{colorChannel(r), colorChannel(g), colorChannel(b), 255}, nil
 }
 
 func ReadMaterials(in io.Reader) ([]modeling.Material, error) {
